@@ -184,6 +184,253 @@ def _forward_slice_names(fn, seeds: set[str]) -> set[str]:
     return names
 
 
+class _Strip(ast.NodeTransformer):
+    """value-preserving wrappers are transparent for the algebra: float(x), int(x) on an index, x.item(), x.to(…), x.astype(…), x.long();
+    two-element vectors np.array([a, b]) / torch.tensor([a, b]) become one symbol per component pair"""
+
+    def visit_Call(self, n):
+        self.generic_visit(n)
+        cn = call_name(n) or ""
+        last = cn.split(".")[-1]
+        if cn in ("float", "int") and len(n.args) == 1:
+            return n.args[0]
+        if isinstance(n.func, ast.Attribute) and last in ("item", "to", "astype", "long", "float", "double") and not (cn.startswith(("np.", "torch.", "xp."))):
+            return n.func.value
+        if last in ("array", "tensor", "asarray") and len(n.args) >= 1:
+            a = n.args[0]
+            if isinstance(a, (ast.List, ast.Tuple)) and len(a.elts) == 2:
+                return ast.Name(id="vec⟨" + ",".join(unparse(e) for e in a.elts) + "⟩", ctx=ast.Load())
+            if isinstance(a, ast.Name):
+                return ast.Name(id=f"vec⟨{a.id}⟩", ctx=ast.Load())
+        return n
+
+
+def _nf(e: ast.AST, env=None) -> Rat:
+    import copy
+    from ..core.alpha import clone
+    t = _Strip().visit(clone(e))
+
+    def atom(x):
+        cn = call_name(x) if isinstance(x, ast.Call) else None
+        if cn and cn.split(".")[-1] == "round" and len(x.args) == 1:
+            return f"round⟨{_nf(x.args[0], env)!r}⟩"
+        return f"⟨{unparse(x)}⟩"
+    return from_ast(t, env or {}, atom)
+
+
+def _const_int(e):
+    if isinstance(e, ast.Constant) and isinstance(e.value, int) and not isinstance(e.value, bool):
+        return e.value
+    if isinstance(e, ast.UnaryOp) and isinstance(e.op, ast.USub) and isinstance(e.operand, ast.Constant) and isinstance(e.operand.value, int):
+        return -e.operand.value
+    return None
+
+
+def _neighbour_vector(fn, e):
+    """Normal form of a neighbour index vector: (base name, offsets, wrapped by which extent text | None) or None when not understood.
+    Understands mod(base + arange(a, b), n), (base + arange(a, b)) % n, [((base + d) % n) for d in (…)] and value-preserving casts."""
+    while isinstance(e, ast.Call) and isinstance(e.func, ast.Attribute) and e.func.attr in ("astype", "long", "to") and not (call_name(e) or "").startswith(("np.", "torch.", "xp.")):
+        e = e.func.value
+    extent = None
+    loopvar = None
+    offs = None
+    if isinstance(e, ast.ListComp) and len(e.generators) == 1 and isinstance(e.generators[0].target, ast.Name) and isinstance(e.generators[0].iter, (ast.Tuple, ast.List)):
+        offs = [_const_int(x) for x in e.generators[0].iter.elts]
+        loopvar = e.generators[0].target.id
+        e = e.elt
+    if isinstance(e, ast.Call) and (call_name(e) or "").split(".")[-1] in ("mod", "remainder") and len(e.args) == 2:
+        e, extent = e.args[0], unparse(e.args[1])
+    elif isinstance(e, ast.BinOp) and isinstance(e.op, ast.Mod):
+        e, extent = e.left, unparse(e.right)
+    if not (isinstance(e, ast.BinOp) and isinstance(e.op, ast.Add)):
+        return None
+    base = None
+    for a, b in ((e.left, e.right), (e.right, e.left)):
+        if isinstance(a, ast.Name):
+            if loopvar is not None and isinstance(b, ast.Name) and b.id == loopvar:
+                base = a.id
+                break
+            if isinstance(b, ast.Call) and (call_name(b) or "").split(".")[-1] == "arange" and 1 <= len(b.args) <= 2 and all(_const_int(x) is not None for x in b.args):
+                vals = [_const_int(x) for x in b.args]
+                offs = list(range(*vals))
+                base = a.id
+                break
+    if base is None or offs is None or any(o is None for o in offs):
+        return None
+    return base, offs, extent
+
+
+def _rule_peak_pipeline(check, mod, ccs, ali, ups, kinds=None) -> None:
+    """R6: the value-level skeleton of the estimators, decided by small normal forms (robust to algebraic re-spelling):
+    peak selection is an arg-MAXIMUM; the three refinement samples are the peak's −1/0/+1 neighbours (wrapped by the extent of their own axis
+    for the coarse, circular correlation; the 3×3 slice [p−1, p+2) for the upsampled patch); the refined coordinate ADDS the parabolic offset
+    measured along its own axis; the final estimate is coarse + (local peak − centre + sub-sample offset) / upsample factor."""
+    # A. selectors
+    n_sel = 0
+    for label, fn in (("cross_correlation_shift", ccs), ("align_images_fourier_torch", ali), ("upsampled_correlation_torch", ups)):
+        for c in calls_in(fn):
+            last = (call_name(c) or "").split(".")[-1]
+            if last not in ("argmax", "argmin", "nanargmax", "nanargmin"):
+                continue
+            n_sel += 1
+            operand = c.args[0] if c.args else (c.func.value if isinstance(c.func, ast.Attribute) else None)
+            negated = isinstance(operand, ast.UnaryOp) and isinstance(operand.op, ast.USub)
+            ok = last.endswith("argmax") != negated
+            check.decide(ok, "C13-R6", f"{label}: the correlation peak `{unparse(c)[:40]}` is an arg-maximum", "", mod.line(c), definite=True,
+                         fail_detail=f"`{unparse(c)[:60]}` selects the minimum of the correlation: the returned shift is that of the worst match")
+    check.floor("peak selectors", n_sel, 4)
+    # B. 3×3 patches around the upsampled peak
+    n_patch = 0
+    for label, fn in (("cross_correlation_shift", ccs), ("upsampled_correlation_torch", ups)):
+        for sub in ast.walk(fn):
+            if not (isinstance(sub, ast.Subscript) and isinstance(sub.slice, ast.Tuple) and len(sub.slice.elts) == 2 and all(isinstance(x, ast.Slice) and x.lower is not None and x.upper is not None
+                                                                                                                 for x in sub.slice.elts)):
+                continue
+            centres = []
+            ok = True
+            for sl in sub.slice.elts:
+                names = {x.id for x in ast.walk(sl) if isinstance(x, ast.Name)}
+                if len(names) != 1:
+                    ok = None
+                    break
+                pnm = next(iter(names))
+                try:
+                    lo, hi = _nf(sl.lower) - Rat.sym(pnm), _nf(sl.upper) - Rat.sym(pnm)
+                except NotArithmetic:
+                    ok = None
+                    break
+                ok = ok and lo.equals(Rat.const(-1)) and hi.equals(Rat.const(2))
+                centres.append(pnm)
+            if ok is None or len(set(centres)) != 2:
+                continue
+            n_patch += 1
+            check.decide(bool(ok), "C13-R6", f"{label}: the refinement patch is [p−1, p+2) around the upsampled peak on both axes", unparse(sub)[:70], mod.line(sub), definite=True,
+                         fail_detail=f"`{unparse(sub)[:80]}` is not the 3×3 neighbourhood centred on the peak: the parabola is fitted to samples that do not straddle the maximum")
+            env_ = (kinds or {}).get(label, {})
+            k0, k1 = env_.get(centres[0]), env_.get(centres[1])
+            if isinstance(k0, Comp) and isinstance(k1, Comp):
+                check.decide(k0.axis == ROW and k1.axis == COL, "C13-R6", f"{label}: the patch is cut with the row index on axis 0 and the column index on axis 1", f"{k0} {k1}",
+                             mod.line(sub), definite=True, fail_detail=f"`{unparse(sub)[:80]}`: axis 0 is indexed by {k0}, axis 1 by {k1} — the patch is taken around the transposed position")
+    check.floor("3×3 refinement patches", n_patch, 2)
+    # C/D. coarse neighbours and refinement, per estimator
+    n_ref = 0
+    for label, fn in (("cross_correlation_shift", ccs), ("align_images_fourier_torch", ali)):
+        # coordinate ↔ its neighbour vector ↔ its profile ↔ its offset
+        vecs = {}
+        for n in walk_no_nested_defs(fn):
+            if isinstance(n, ast.Assign) and len(n.targets) == 1 and isinstance(n.targets[0], ast.Name):
+                nv = _neighbour_vector(fn, n.value)
+                if nv is not None:
+                    vecs[n.targets[0].id] = (nv, n)
+        check.floor(f"{label}: neighbour index vectors", len(vecs), 2)
+        for vname, ((base, offs, extent), node) in vecs.items():
+            check.decide(offs == [-1, 0, 1], "C13-R6", f"{label}: `{vname}` addresses the −1/0/+1 neighbours of `{base}` in this order", str(offs), mod.line(node), definite=True,
+                         fail_detail=f"offsets are {offs}: the parabola through v[0], v[1], v[2] assumes the samples at −1, 0, +1 around the peak")
+            check.decide(extent is not None, "C13-R6", f"{label}: `{vname}` is wrapped by an extent (the sum base+offset is the first operand of the modulo)", str(extent), mod.line(node),
+                         fail_detail="the neighbour indices are not reduced modulo the extent (or the operands of the modulo are exchanged)")
+        # profiles: v = cc_real[vec, other] / cc_real[other, vec]  → axis of the vector
+        prof_axis = {}
+        for n in walk_no_nested_defs(fn):
+            if isinstance(n, ast.Assign) and len(n.targets) == 1 and isinstance(n.targets[0], ast.Name) and isinstance(n.value, ast.Subscript) and isinstance(n.value.slice, ast.Tuple) \
+                    and len(n.value.slice.elts) == 2:
+                for ax, el in enumerate(n.value.slice.elts):
+                    if isinstance(el, ast.Name) and el.id in vecs:
+                        prof_axis[n.targets[0].id] = (vecs[el.id][0][0], ax)
+        # offsets: d = f(profile)
+        off_of = {}
+        for n in walk_no_nested_defs(fn):
+            if isinstance(n, ast.Assign) and len(n.targets) == 1 and isinstance(n.targets[0], ast.Name):
+                used = {x.id for x in ast.walk(n.value) if isinstance(x, ast.Name)} & set(prof_axis)
+                if len(used) == 1 and n.targets[0].id not in prof_axis and isinstance(n.value, (ast.Call, ast.IfExp, ast.BinOp)):
+                    off_of.setdefault(n.targets[0].id, prof_axis[next(iter(used))])
+        # refinement statements: coord = g(coord + offset)
+        for n in walk_no_nested_defs(fn):
+            if not (isinstance(n, ast.Assign) and len(n.targets) == 1 and isinstance(n.targets[0], ast.Name)):
+                continue
+            coord = n.targets[0].id
+            offs_used = [x.id for x in ast.walk(n.value) if isinstance(x, ast.Name) and x.id in off_of]
+            if coord not in {b for b, _ in prof_axis.values()} or len(set(offs_used)) != 1:
+                continue
+            off = offs_used[0]
+            inner = n.value
+            wrapped = None
+            if isinstance(inner, ast.BinOp) and isinstance(inner.op, ast.Mod):
+                wrapped, inner = unparse(inner.right), inner.left
+            try:
+                got = _nf(inner)
+            except NotArithmetic:
+                raise AnalysisError(f"{label}: refinement `{unparse(n)[:60]}` is not arithmetic")
+            c_, o_ = Rat.sym(coord), Rat.sym(off)
+            want_plain = c_ + o_
+            want_half = Rat.sym(f"round⟨{(want_plain * Rat.const(2))!r}⟩") / Rat.const(2)
+            ok = got.equals(want_plain) or got.equals(want_half)
+            n_ref += 1
+            check.decide(ok, "C13-R6", f"{label}: refined `{coord}` = `{coord}` + its parabolic offset (optionally rounded to half pixels)", repr(got), mod.line(n), definite=True,
+                         fail_detail=f"`{unparse(n)[:70]}` evaluates to {got!r}, not {coord} + {off}: the sub-pixel correction is applied with the wrong sign / scale")
+            own = off_of[off][0] == coord
+            check.decide(own, "C13-R6", f"{label}: `{coord}` is refined with the offset measured along its own axis", f"{off} ← neighbours of {off_of[off][0]}", mod.line(n), definite=True,
+                         fail_detail=f"`{off}` was measured on the neighbours of `{off_of[off][0]}`, but corrects `{coord}`: row and column corrections are exchanged")
+            if label == "cross_correlation_shift":
+                check.decide(wrapped is not None, "C13-R6", f"{label}: refined `{coord}` is reduced modulo the extent (`%`)", str(wrapped), mod.line(n),
+                             fail_detail=f"`{unparse(n)[:70]}`: the refined coordinate is not wrapped with `%` (a floor division or a plain sum leaves it outside the cell)")
+    check.floor("coarse refinements", n_ref, 4)
+    # E. composition of the upsampled estimate
+    env = {}
+    comp = None
+    for n in ast.walk(ccs):
+        if isinstance(n, ast.Assign) and dotted(n.targets[0]) == "shifts" and "peak" in unparse(n.value):
+            comp = n
+    if comp is None:
+        raise AnalysisError("cross_correlation_shift: upsampled composition `shifts = … peak …` not found")
+    try:
+        val = _nf(comp.value)
+        blk = next((b for x in ast.walk(ccs) for b in (getattr(x, "body", None), getattr(x, "orelse", None)) if isinstance(b, list) and comp in b), [])
+        for st in blk[blk.index(comp) + 1:]:
+            if isinstance(st, ast.AugAssign) and dotted(st.target) == "shifts" and isinstance(st.op, (ast.Add, ast.Sub)):
+                v2 = _nf(st.value)
+                val = val + v2 if isinstance(st.op, ast.Add) else val - v2
+        cen = [d for d in definitions(ccs, "center") if isinstance(d, ast.AST)]
+        up = Rat.sym("upsample_factor")
+        want = Rat.sym("vec⟨x0,y0⟩") + (Rat.sym("vec⟨peak⟩") - Rat.sym("center")) / up + Rat.sym("vec⟨dxf,dyf⟩") / up
+        ok = val.equals(want)
+    except NotArithmetic as e_:
+        raise AnalysisError(f"cross_correlation_shift: composition not arithmetic ({e_})")
+    check.decide(ok, "C13-R6", "cross_correlation_shift: upsampled estimate = (x0, y0) + (peak − center + (dxf, dyf)) / upsample_factor", repr(val), mod.line(comp), definite=True,
+                 fail_detail=f"the composition evaluates to {val!r}: coarse estimate, local peak, centre and sub-sample offset are not combined as coarse + (local − centre + δ)/up")
+    # torch twin
+    rets = [n for n in walk_no_nested_defs(ups) if isinstance(n, ast.Return) and n.value is not None]
+    outs = [d for d in definitions(ups, "xyShift") if isinstance(d, ast.AST) and "xySubShift" in unparse(d)]
+    if len(outs) != 1:
+        raise AnalysisError("upsampled_correlation_torch: final composition `xyShift = xyShift + …` not found")
+    try:
+        got = _nf(outs[0])
+        want = Rat.sym("xyShift") + (Rat.sym("xySubShift") + Rat.sym("vec⟨dx,dy⟩")) / Rat.sym("upsampleFactor")
+        ok = got.equals(want)
+    except NotArithmetic as e_:
+        raise AnalysisError(f"upsampled_correlation_torch: composition not arithmetic ({e_})")
+    check.decide(ok, "C13-R6", "upsampled_correlation_torch: refined estimate = xyShift + (xySubShift + (dx, dy)) / upsampleFactor", repr(got), mod.line(outs[0]), definite=True,
+                 fail_detail=f"the composition evaluates to {got!r}")
+    rnd = [d for d in definitions(ups, "xyShift") if isinstance(d, ast.AST) and "round" in unparse(d)]
+    if len(rnd) == 1:
+        try:
+            g = _nf(rnd[0])
+            upf = Rat.sym("upsampleFactor")
+            ok = g.equals(Rat.sym(f"round⟨{(Rat.sym('xyShift') * upf)!r}⟩") / upf)
+        except NotArithmetic:
+            ok = False
+        check.decide(ok, "C13-R6", "upsampled_correlation_torch: the incoming estimate is snapped to the 1/upsampleFactor grid (round(s·up)/up)", "", mod.line(rnd[0]), definite=True,
+                     fail_detail=f"`{unparse(rnd[0])[:70]}` is not round(xyShift·up)/up: the coarse estimate is rescaled before the patch is placed")
+    sub = [d for d in definitions(ups, "xySubShift") if isinstance(d, ast.AST) and "globalShift" in unparse(d)]
+    if len(sub) == 1:
+        try:
+            g = _nf(sub[0])
+            ok = g.equals(Rat.sym("xySubShift") - Rat.sym("globalShift"))
+        except NotArithmetic:
+            ok = False
+        check.decide(ok, "C13-R6", "upsampled_correlation_torch: the local peak is re-centred by subtracting globalShift", "", mod.line(sub[0]), definite=True,
+                     fail_detail=f"`{unparse(sub[0])[:70]}` does not subtract globalShift")
+
+
 def run(check, repo: Repo) -> None:
     mod = repo.module(IU)
     _, dnp = repo.func(f"{IU}:dft_upsample")
@@ -475,6 +722,14 @@ def run(check, repo: Repo) -> None:
         check.decide(cls == "good" and n_ == ext, "C13-R2", f"cross_correlation_shift: max_shift mask coordinate on axis {pos} is the FFT-ordered signed index of that axis' extent",
                      why, mod.line(d[0]),
                      fail_detail=f"`{unparse(d[0])}` (extent {n_}, expected {ext}): {why} — the allowed disc is not centred on zero shift / uses the other axis' extent")
+    k_up = KAT(ups, index_axes={"imageCorrUpsample": IMG, "im_up": IMG}, image_like=("imageCorrUpsample", "im_up")).run()
+    for n, m in k_up.clashes:
+        check.violated("C13-R2", f"upsampled_correlation_torch: axis clash `{unparse(n)[:60]}`", m, mod.line(n), definite=True)
+    u0, u1 = k_up.env.get("xySubShift0"), k_up.env.get("xySubShift1")
+    if isinstance(u0, Comp) and isinstance(u1, Comp):
+        check.decide(u0.axis == ROW and u1.axis == COL, "C13-R3", "upsampled_correlation_torch: the flat peak index is unravelled row-major into (row, col)", f"{u0} {u1}", mod.line(ups),
+                     definite=True, fail_detail=f"xySubShift0 is {u0}, xySubShift1 is {u1}")
+    _rule_peak_pipeline(check, mod, ccs, ali, ups, kinds={"cross_correlation_shift": k_np.env, "upsampled_correlation_torch": k_up.env})
     # no cross-call state: a memoised helper must key its cache on every parameter the cached value depends on
     _rule_memo(check, repo, mod)
     # the estimators do not write into their arguments (with fft_input=True the arrays ARE the caller's spectra) and do not couple the dtype of the
@@ -641,3 +896,4 @@ MANIFEST = {
     "technique": "kinded-axis abstract interpretation + idiom table for centred index vectors + rational normal forms (AST)",
 }
 MANIFEST["text"] += ' Also: memoised helpers key their cache on every parameter the cached value depends on and no helper accumulates module-level state (R5); kinded-axis analysis covers 1-D profiles: an offset estimated from samples along one axis never corrects a position on the other axis.'
+MANIFEST["text"] += ' R6 (peak pipeline): peak selection is an arg-maximum; the coarse refinement samples are the −1/0/+1 neighbours in this order, wrapped by a modulo whose first operand is base+offset; the 3×3 patch is [p−1, p+2) on both axes with the row index on axis 0; each coordinate adds the parabolic offset measured along its own axis; the upsampled estimate is coarse + (local peak − centre + δ)/up in both twins — all decided on rational normal forms, so algebraic re-spelling does not matter.'
